@@ -40,6 +40,8 @@ type GenericObjectSetController struct {
 	recorder        metricsRecorder
 	dynamicCache    dynamicCache
 	teardownHandler teardownHandler
+	// inlines objects from ObjectSlices, so teardown knows about them.
+	sliceLoader reconciler
 }
 
 type reconciler interface {
@@ -140,6 +142,7 @@ func newGenericObjectSetController(
 	)
 
 	controller.teardownHandler = phasesReconciler
+	controller.sliceLoader = newObjectSliceLoadReconciler(scheme, client, newObjectSlice)
 
 	controller.reconciler = []reconciler{
 		&revisionReconciler{
@@ -147,7 +150,7 @@ func newGenericObjectSetController(
 			client:       client,
 			newObjectSet: newObjectSet,
 		},
-		newObjectSliceLoadReconciler(scheme, client, newObjectSlice),
+		controller.sliceLoader,
 		phasesReconciler,
 	}
 
@@ -330,6 +333,14 @@ func (c *GenericObjectSetController) handleDeletionAndArchival(
 	// When removing the finalizer this function may be called one last time.
 	// .Teardown may allocate new watches and leave dangling watches.
 	if controllerutil.ContainsFinalizer(objectSet.ClientObject(), constants.CachedFinalizer) {
+		if c.sliceLoader != nil {
+			// Objects referenced via ObjectSlices have to be torn down like inlined objects.
+			// A slice that is already gone can no longer be loaded, its objects are left to garbage collection.
+			if _, err := c.sliceLoader.Reconcile(ctx, objectSet); err != nil && !apimachineryerrors.IsNotFound(err) {
+				return fmt.Errorf("loading ObjectSlices for teardown: %w", err)
+			}
+		}
+
 		var err error
 		done, err = c.teardownHandler.Teardown(ctx, objectSet)
 		if err != nil {
